@@ -539,18 +539,18 @@ Print Assumptions C14_predicates.
 (* ------------------------------------------------ from the CALL to called_with *)
 (* [apply_builtin b args] = push the arguments left to right, push their count, run the
    builtin through the CALL wrapper (compile.rs:530-560, run.rs:149-156).  On any machine
-   whose stack pointer is inside the stack vector this establishes [called_with] without
+   whose stack pointer is below the stack capacity (sp < scap, the Vec length of stack.rs) this establishes [called_with] without
    touching heap or tables, so every theorem above applies to the real calling sequence;
    [C14_apply_cons] is the instance for cons. *)
 Theorem C14_apply_builtin_called : forall b args s,
-  sp s < len (stack s) ->
+  sp s < scap s ->
   exists s1, apply_builtin b args s = call_builtin b s1 /\ called_with s1 args /\
              hp s1 = hp s /\ st s1 = st s.
 Proof. exact apply_builtin_called. Qed.
 Print Assumptions C14_apply_builtin_called.
 
 Theorem C14_apply_cons : forall s a b,
-  sp s < len (stack s) -> values_are_refs s -> val_ok s a -> val_ok s b ->
+  sp s < scap s -> values_are_refs s -> val_ok s a -> val_ok s b ->
   exists p s', apply_builtin cons_ [a; b] s = ROk (VPtr p) s' /\
     ~ live (hp s) p /\ a_pair (abs s') p = Some (absv s a, absv s b) /\
     pres s s' /\ values_are_refs s' /\ target_ok s' p.
@@ -569,7 +569,7 @@ Print Assumptions C14_apply_cons.
    what is owed (to be proved over the generated prelude run by the VM model): *)
 Definition prelude_member_stmt : Prop :=
   forall fuel s x l xs e,
-  values_are_refs s -> sym_interned s -> val_ok s x -> val_ok s l -> sp s < len (stack s) ->
+  values_are_refs s -> sym_interned s -> val_ok s x -> val_ok s l -> sp s < scap s ->
   achain (abs s) (absv s l) xs e -> (forall n, In n xs -> exists k, adatum s n k /\ (2 * k + 2 < fuel)%nat) ->
   (exists k, adatum s (absv s x) k /\ (2 * k + 2 < fuel)%nat) -> (length xs + 1 < fuel)%nat ->
   e = AImm VNil ->
@@ -593,7 +593,7 @@ Proof. exact prelude_list_spec. Qed.
 Print Assumptions C14_handmodel_list.
 
 Theorem C14_handmodel_length : forall fuel s v xs e,
-  values_are_refs s -> val_ok s v -> sp s < len (stack s) ->
+  values_are_refs s -> val_ok s v -> sp s < scap s ->
   achain (abs s) (absv s v) xs e -> (length xs + 1 <= fuel)%nat ->
   (e = AImm VNil ->
      exists s', MW.Model.PreludeLists.p_length fuel [v] s = ROk (VNum (Fixnum (Z.of_nat (length xs)))) s' /\
@@ -603,7 +603,7 @@ Proof. exact prelude_length_spec. Qed.
 Print Assumptions C14_handmodel_length.
 
 Theorem C14_handmodel_cadr : forall fuel s o a d a2 d2,
-  sp s < len (stack s) ->
+  sp s < scap s ->
   heap_deref (hp s) o = Ok (VPair a d) -> heap_get (hp s) d = Ok (VPair a2 d2) ->
   exists s', MW.Model.PreludeLists.p_cadr fuel [o] s = ROk (VPtr a2) s' /\ hp s' = hp s /\ st s' = st s.
 Proof. exact prelude_cadr_spec. Qed.
